@@ -502,6 +502,9 @@ func (fr *Frame) applyContract(fc *FuncContract, callee *ssa.Function, sig *type
 				continue
 			}
 			for _, k := range loc.keys {
+				if c.eng.finalKeys[k] {
+					continue // final field: no callee writes it after construction
+				}
 				if loc.all {
 					c.havocKey(st, k)
 					continue
